@@ -511,6 +511,21 @@ class Pipeline:
             return tg.cache
         return self.cache
 
+    def _intermediate_supplied(
+        self,
+        output_name: OUTPUT_TYPE,
+        flat_scope_kwargs: dict[str, Any],
+    ) -> bool:
+        """Whether the output of a function that `output_name` depends on is provided as input."""
+        if not any(k in self.output_to_func for k in flat_scope_kwargs):
+            return False
+        upstream = {
+            name
+            for output in self.func_dependencies(output_name)
+            for name in at_least_tuple(output)
+        }
+        return any(k in upstream for k in flat_scope_kwargs)
+
     def _run(
         self,
         *,
@@ -536,6 +551,13 @@ class Pipeline:
                 self._func_defaults(func) | flat_scope_kwargs | func._bound,
                 root_args,
             )
+            if cache_key is not None and self._intermediate_supplied(
+                output_name,
+                flat_scope_kwargs,
+            ):
+                # The result depends on the supplied intermediate value, which is
+                # not part of the key (root arguments only).
+                cache_key = None
             return_now, result_from_cache = get_result_from_cache(
                 func,
                 cache,
